@@ -1352,6 +1352,10 @@ func TestVerif_C32(t *testing.T) {
 			rec.Inconclusive("cannot load replay: " + err.Error())
 			return
 		}
+		if res.Case.Kind == "" {
+			// a witness of part b (proxy/server); this part runs a plain baseline case
+			res.Case = c32Case{Kind: "modify", Proxies: []c32PF{{P: c32OK, C: c32Refuse}}}
+		}
 		out, ok := runOne(res.Case)
 		rec.Eval(1)
 		rec.Nontrivial(res.Case.key())
